@@ -81,7 +81,15 @@ CLAIMS.update({
             "json dumps/loads) is normalised and compared by TLC with ToDictList(S), and from_dict() of it with Canon(S).",
             "5 C14"),
 })
-QUERY = {"C05", "C06", "C08", "C09", "C10", "C12", "C14", "C15", "C16"}
+CLAIMS.update({
+    "C17": ("TLC checks on every shape that excluding the root removes exactly the root's out-edges and that there is "
+            "one edge per exported tree node; for every shape, labelled forest with clones (string data, ints including "
+            "0, typed) and start node the DOT lines, Mermaid lines and RDF triples are parsed back into graph nodes, "
+            "edges, kind labels and names (keys mapped to data_ids / node ids through the harness registry) for "
+            "unique_nodes on/off and add_root/add_self on/off; TLC compares them with ExportNodeKeys/ExportEdges "
+            "(bags for DOT/Mermaid, sets for RDF).", "5 C17"),
+})
+QUERY = {"C17", "C05", "C06", "C08", "C09", "C10", "C12", "C14", "C15", "C16"}
 TECHNIQUE = "TLA+ spec + TLC model checking; spec->code transition replay and code->spec trace validation by TLC"
 
 
